@@ -159,10 +159,17 @@ def judge(text, container, scripting, as_bytes=True, configs=None):
     return None
 
 
+LIGHT = [("dom", True), ("etree", True)]
+
+
 def step(ctx, word):
-    theme, container, scripting = ctx
+    theme, container, scripting = ctx[:3]
     text = tw.text_of(theme, word)
-    j = judge(text, container, scripting)
+    if len(ctx) > 3 and ctx[3] == "light":
+        # one level deeper than the full-configuration search, two builder configurations, str input only
+        j = judge(text, container, scripting, as_bytes=False, configs=LIGHT)
+    else:
+        j = judge(text, container, scripting)
     v = None
     if j is not None:
         v = engine.Violation(H, {"kind": "word", "theme": theme, "container": container, "scripting": scripting}, text,
@@ -283,7 +290,8 @@ def _pump_shard(args):
 
 
 WITNESSES = ["<b><frameset></frameset></html> ", "<svg><select><foreignObject><table></table>", "<table><svg><html>",
-             "<math><html><annotation-xml encoding='text/html'><select></select>"]
+             "<math><html><annotation-xml encoding='text/html'><select></select>",
+             "&#" + "9" * 5000 + ";", "<p title='&#x" + "f" * 6000 + "'>", "&#" + "0" * 5000 + "65;"]
 
 
 def run(run):
@@ -307,6 +315,16 @@ def run(run):
             for container, scripting in cfgs:
                 dd = d if container is None else max(2, d - 1)
                 res = engine.product_bfs(step, len(tw.THEMES[theme]), dd, bisim_depth=0, ctx=(theme, container, scripting))
+                tot_s += res.states
+                tot_t += res.transitions
+                obs |= res.obs
+                for v in res.violations:
+                    if v.diff_class not in classes or len(v.case) < len(classes[v.diff_class].case):
+                        classes[v.diff_class] = v
+            if theme in ("T1", "T2", "T6"):
+                # (the adoption agency, foster parenting and implied-end-tag machinery needs four tokens to get into its
+                # rarer branches: one more level with two builder configurations)
+                res = engine.product_bfs(step, len(tw.THEMES[theme]), d + 1, bisim_depth=0, ctx=(theme, None, False, "light"))
                 tot_s += res.states
                 tot_t += res.transitions
                 obs |= res.obs
